@@ -271,6 +271,7 @@ func RunCuts(out string) {
 		bgz.BuildFile([]int{5, 3, 0, 4}, true, 1, true),
 		bgz.BuildFile([]int{8, 8, 8}, false, 6, false),
 		bgz.BuildFile([]int{B, 10, 3000}, true, 1, false),
+		bgz.BuildFile([]int{3, 5, 2, 7, 4, 6, 1, 8, 3, 5, 2, 7, 4, 6, 1, 8}, true, 1, false),
 	}
 	values := []int{1, 0x80}
 	if tr.Tier() == "thorough" {
@@ -314,6 +315,41 @@ func RunCuts(out string) {
 				bgz.RunReader(t, bgz.RScenario{Class: "cut", File: f, Stream: f.Bytes[:cut], Faultable: true, CutLen: cl, RD: rd, Ops: ops, HasEOFWant: want})
 			}
 		}
+		// length-field edits: BSIZE of member i rewritten so that the member appears to end at
+		// the start (or one byte either side of the start) of a later member, or one byte off its own end
+		for i, m := range f.Members {
+			var targets []int64
+			for j := i + 1; j <= len(f.Members) && j <= i+4; j++ {
+				end := int64(len(f.Bytes))
+				if j < len(f.Members) {
+					end = f.Members[j].Base
+				}
+				targets = append(targets, end, end-1, end+1)
+			}
+			for _, tg := range targets {
+				nb := tg - m.Base - 1
+				if nb < 0 || nb > 0xffff || nb == int64(m.Size-1) {
+					continue
+				}
+				s := append([]byte(nil), f.Bytes...)
+				lo, hi := byte(nb), byte(nb>>8)
+				// a single-byte substitution only: skip edits that need both bytes changed
+				diff := 0
+				if s[m.Base+16] != lo {
+					diff++
+				}
+				if s[m.Base+17] != hi {
+					diff++
+				}
+				if diff != 1 {
+					continue
+				}
+				s[m.Base+16], s[m.Base+17] = lo, hi
+				for _, rd := range []int{1, 2} {
+					bgz.RunReader(t, bgz.RScenario{Class: "bsize", File: f, Stream: s, Faultable: true, Altered: true, CutLen: -1, RD: rd, Ops: seqOps(f.Total, 6)})
+				}
+			}
+		}
 		for p := 0; p < len(f.Bytes); p++ {
 			if !small && !near(p) && p%499 != 0 {
 				continue
@@ -334,7 +370,7 @@ func RunCuts(out string) {
 					continue
 				}
 				rd := []int{1, 4}[(p+v+4)%2]
-				bgz.RunReader(t, bgz.RScenario{Class: "subst", File: f, Stream: s, Faultable: true, CutLen: -1, RD: rd, Ops: seqOps(f.Total, 6)})
+				bgz.RunReader(t, bgz.RScenario{Class: "subst", File: f, Stream: s, Faultable: true, Altered: true, CutLen: -1, RD: rd, Ops: seqOps(f.Total, 6)})
 			}
 		}
 	}
